@@ -1,8 +1,1291 @@
-//! C25 — not built yet.
+//! C25 — jq value identities hold for every value (DESIGN §4 C25).
+//!
+//! System under test: the generic evaluator (`eval_generic::eval_with_cursor`, what the
+//! CLI runs), the library evaluator (`jq::eval::<_, JqSemantics>`) and, sampled, the
+//! `succinctly jq -c` binary. Oracles are harness-side: the G-json model (`J`), a path
+//! walk / replace on the model, the harness's jq total order (`jsonval::jq_cmp`), a
+//! strict base64 decoder and a percent-decoder written here.
+use crate::cli;
 use crate::engine::*;
+use crate::gen::json::{self, GenOpts, KeyPalette, StrPalette, J};
+use crate::oracle::jqeval::{self, jq_string, jq_string_ascii, Route};
+use crate::oracle::jsonval::{self, jq_cmp};
+use serde_json::{json, Value};
+use std::cmp::Ordering;
 
-pub const RULE: &str = "not built";
+pub const RULE: &str = "G-json values without duplicate keys (depth<=8, <=60 nodes, all scalar kinds, full-Unicode strings and keys, extreme/odd-spelled finite numbers), rendered with random whitespace and escape forms, evaluated in-process by the generic (CLI) evaluator and the library evaluator and, sampled, by `succinctly jq -c`; identities tojson|fromjson, to_entries|from_entries, fromstream(tostream), @base64|@base64d, @uri|@urid (+ harness-side decoders of @base64/@uri), [paths] = model path set, getpath(p) = model lookup and setpath(p;getpath(p)) = input for every path, sort/unique against the harness's jq total order, setpath(p;v) and (path)=v against model replacement. Non-trivial: value with >=5 nodes of >=3 kinds; distinct by hash of the rendered text (+ path/value for assignments).";
+
+const ROUTES: [Route; 2] = [Route::Generic, Route::Library];
+
+// ---------------------------------------------------------------- model helpers
+
+/// value equality: numbers as doubles, objects as unordered maps (no duplicate keys here)
+fn val_eq(a: &J, b: &J) -> bool {
+    jq_cmp(a, b) == Ordering::Equal
+}
+
+fn key_order_same(a: &J, b: &J) -> bool {
+    json::j_eq(a, b)
+}
+
+/// every path of `j` except the root, pre-order
+fn all_paths(j: &J) -> Vec<Vec<J>> {
+    fn rec(j: &J, cur: &mut Vec<J>, out: &mut Vec<Vec<J>>) {
+        match j {
+            J::Arr(a) => {
+                for (i, x) in a.iter().enumerate() {
+                    cur.push(J::int(i as i64));
+                    out.push(cur.clone());
+                    rec(x, cur, out);
+                    cur.pop();
+                }
+            }
+            J::Obj(f) => {
+                for (k, x) in f {
+                    cur.push(J::Str(k.clone()));
+                    out.push(cur.clone());
+                    rec(x, cur, out);
+                    cur.pop();
+                }
+            }
+            _ => {}
+        }
+    }
+    let mut out = vec![];
+    rec(j, &mut vec![], &mut out);
+    out
+}
+
+/// model assignment: the value with the node at `p` replaced by `v`
+/// (`p` exists, or its last segment is a fresh key of an existing object)
+fn replace_at(j: &J, p: &[J], v: &J) -> J {
+    if p.is_empty() {
+        return v.clone();
+    }
+    match (j, &p[0]) {
+        (J::Arr(a), J::Num(n)) => {
+            let i = n.int.unwrap() as usize;
+            J::Arr(a.iter().enumerate().map(|(k, x)| if k == i { replace_at(x, &p[1..], v) } else { x.clone() }).collect())
+        }
+        (J::Obj(f), J::Str(k)) => {
+            let mut out: Vec<(String, J)> = vec![];
+            let mut seen = false;
+            for (k2, x) in f {
+                if k2 == k {
+                    seen = true;
+                    out.push((k2.clone(), replace_at(x, &p[1..], v)));
+                } else {
+                    out.push((k2.clone(), x.clone()));
+                }
+            }
+            if !seen {
+                assert!(p.len() == 1, "fresh key only as last segment");
+                out.push((k.clone(), v.clone()));
+            }
+            J::Obj(out)
+        }
+        _ => unreachable!("model path does not fit the model value"),
+    }
+}
+
+fn strings_of(j: &J, out: &mut Vec<String>) {
+    match j {
+        J::Str(s) => out.push(s.clone()),
+        J::Arr(a) => a.iter().for_each(|x| strings_of(x, out)),
+        J::Obj(f) => {
+            for (k, x) in f {
+                out.push(k.clone());
+                strings_of(x, out);
+            }
+        }
+        _ => {}
+    }
+}
+
+fn nums_of<'a>(j: &'a J, out: &mut Vec<&'a json::Num>) {
+    match j {
+        J::Num(n) => out.push(n),
+        J::Arr(a) => a.iter().for_each(|x| nums_of(x, out)),
+        J::Obj(f) => f.iter().for_each(|(_, x)| nums_of(x, out)),
+        _ => {}
+    }
+}
+
+fn kinds_of(j: &J, set: &mut std::collections::BTreeSet<&'static str>) {
+    set.insert(j.kind());
+    match j {
+        J::Arr(a) => a.iter().for_each(|x| kinds_of(x, set)),
+        J::Obj(f) => f.iter().for_each(|(_, x)| kinds_of(x, set)),
+        _ => {}
+    }
+}
+
+/// exact decimal value of a JSON number literal: (negative, significant digits, exponent of
+/// the last digit); zero is (false, "", 0)
+fn canon_dec(text: &str) -> (bool, String, i64) {
+    let (neg, t) = match text.strip_prefix('-') {
+        Some(r) => (true, r),
+        None => (false, text),
+    };
+    let (mant, exp) = match t.find(['e', 'E']) {
+        Some(i) => (&t[..i], t[i + 1..].parse::<i64>().unwrap_or(0)),
+        None => (t, 0),
+    };
+    let (ip, fp) = match mant.find('.') {
+        Some(i) => (&mant[..i], &mant[i + 1..]),
+        None => (mant, ""),
+    };
+    let mut digits = format!("{}{}", ip, fp);
+    let mut e = exp - fp.len() as i64;
+    let lead = digits.len() - digits.trim_start_matches('0').len();
+    digits.drain(..lead);
+    while digits.ends_with('0') {
+        digits.pop();
+        e += 1;
+    }
+    if digits.is_empty() {
+        return (false, String::new(), 0);
+    }
+    (neg, digits, e)
+}
+
+/// Two numbers in `j` have the same double but different exact decimal values. jq 1.7.1
+/// orders such literals by their decimal value while succinctly (documented) orders i64
+/// pairs exactly and everything else as doubles, so order / dedup of the two is not fixed.
+fn has_ambiguous_numbers(j: &J) -> bool {
+    let mut ns = vec![];
+    nums_of(j, &mut ns);
+    ns.sort_by(|a, b| a.value.partial_cmp(&b.value).unwrap_or(Ordering::Equal));
+    // groups of equal doubles are contiguous
+    let mut i = 0;
+    while i < ns.len() {
+        let mut k = i + 1;
+        while k < ns.len() && ns[k].value == ns[i].value {
+            if canon_dec(&ns[k].text) != canon_dec(&ns[i].text) {
+                return true;
+            }
+            k += 1;
+        }
+        i = k;
+    }
+    false
+}
+
+/// strict RFC 4648 base64 decoder (standard alphabet, padding required, zero spare bits)
+fn b64_decode_strict(s: &str) -> Result<Vec<u8>, String> {
+    let b = s.as_bytes();
+    if b.len() % 4 != 0 {
+        return Err(format!("length {} not a multiple of 4", b.len()));
+    }
+    let val = |c: u8| -> Option<u32> {
+        match c {
+            b'A'..=b'Z' => Some((c - b'A') as u32),
+            b'a'..=b'z' => Some((c - b'a') as u32 + 26),
+            b'0'..=b'9' => Some((c - b'0') as u32 + 52),
+            b'+' => Some(62),
+            b'/' => Some(63),
+            _ => None,
+        }
+    };
+    let mut out = vec![];
+    for (ci, q) in b.chunks(4).enumerate() {
+        let last = ci + 1 == b.len() / 4;
+        let pad = q.iter().rev().take_while(|&&c| c == b'=').count();
+        if pad > 2 || (pad > 0 && !last) {
+            return Err("misplaced padding".into());
+        }
+        let mut acc = 0u32;
+        for &c in &q[..4 - pad] {
+            acc = acc << 6 | val(c).ok_or_else(|| format!("byte {:#x} outside the alphabet", c))?;
+        }
+        match pad {
+            0 => out.extend_from_slice(&[(acc >> 16) as u8, (acc >> 8) as u8, acc as u8]),
+            1 => {
+                if acc & 0x3 != 0 {
+                    return Err("non-zero spare bits".into());
+                }
+                out.extend_from_slice(&[(acc >> 10) as u8, (acc >> 2) as u8]);
+            }
+            _ => {
+                if acc & 0xf != 0 {
+                    return Err("non-zero spare bits".into());
+                }
+                out.push((acc >> 4) as u8);
+            }
+        }
+    }
+    Ok(out)
+}
+
+/// percent-decoder: ASCII only, every `%` followed by two hex digits
+fn pct_decode_strict(s: &str) -> Result<Vec<u8>, String> {
+    let b = s.as_bytes();
+    let mut out = vec![];
+    let mut i = 0;
+    while i < b.len() {
+        let c = b[i];
+        if c >= 0x80 || c <= 0x20 || c == 0x7f {
+            return Err(format!("byte {:#x} left unescaped", c));
+        }
+        if c == b'%' {
+            let h = b.get(i + 1).and_then(|&x| (x as char).to_digit(16));
+            let l = b.get(i + 2).and_then(|&x| (x as char).to_digit(16));
+            match (h, l) {
+                (Some(h), Some(l)) => out.push((h * 16 + l) as u8),
+                _ => return Err("'%' not followed by two hex digits".into()),
+            }
+            i += 3;
+        } else {
+            out.push(c);
+            i += 1;
+        }
+    }
+    Ok(out)
+}
+
+// ---------------------------------------------------------------- generation
+
+fn gen_opts(u: &mut Src) -> GenOpts {
+    GenOpts {
+        max_depth: *u.pick(&[1, 2, 3, 4, 6, 8]),
+        max_nodes: *u.pick(&[4, 8, 16, 30, 60]),
+        dup_keys: false,
+        strings: *u.pick(&[StrPalette::Full, StrPalette::Full, StrPalette::Ascii, StrPalette::AsciiPlain]),
+        keys: *u.pick(&[KeyPalette::AsStrings, KeyPalette::Hostile, KeyPalette::Ident]),
+        numbers: *u.pick(&[2, 2, 2, 1, 0]),
+        max_str_len: *u.pick(&[4, 12, 24]),
+    }
+}
+
+struct Doc {
+    j: J,
+    text: Vec<u8>,
+}
+
+fn gen_doc(u: &mut Src) -> Doc {
+    let o = gen_opts(u);
+    let j = json::gen_value(u, &o);
+    let ro = json::render_opts(u);
+    let text = json::render(&j, u, ro).text;
+    Doc { j, text }
+}
+
+fn classify(d: &Doc, st: &mut Stats, extra_hash: u64) {
+    let n = d.j.node_count();
+    let mut kinds = std::collections::BTreeSet::new();
+    kinds_of(&d.j, &mut kinds);
+    let nt = n >= 5 && kinds.len() >= 3;
+    if nt {
+        st.nontrivial(mix64(hash_bytes(&d.text) ^ extra_hash));
+    }
+    st.class_if(nt, "nontrivial");
+    st.class(&format!("root-{}", d.j.kind()));
+    st.class_if(d.j.depth() >= 3, "depth>=3");
+    let mut ss = vec![];
+    strings_of(&d.j, &mut ss);
+    st.class_if(ss.iter().any(|s| !s.is_ascii()), "non-ascii-string");
+    st.class_if(ss.iter().any(|s| s.chars().any(|c| (c as u32) >= 0x10000)), "astral-string");
+    st.class_if(ss.iter().any(|s| s.chars().any(|c| (c as u32) < 0x20)), "control-char-string");
+    let mut ns = vec![];
+    nums_of(&d.j, &mut ns);
+    st.class_if(ns.iter().any(|x| x.int.is_none()), "non-i64-number");
+    st.class_if(ns.iter().any(|x| x.value.abs() > 9007199254740992.0), "number-beyond-2^53");
+    st.class_if(ns.iter().any(|x| x.text.contains(['e', 'E'])), "exponent-number");
+    st.class_if(ns.iter().any(|x| x.value != 0.0 && (x.value.abs() < 1e-300 || x.value.abs() > 1e300)), "extreme-number");
+    st.size(d.text.len());
+}
+
+fn doc_json(d: &Doc) -> Value {
+    json!({"text": String::from_utf8_lossy(&d.text), "compact": json::to_compact(&d.j)})
+}
+
+// ---------------------------------------------------------------- evaluation plumbing
+
+struct Evald {
+    out: Result<Vec<J>, String>,
+    skipped: bool,
+}
+
+/// Evaluate on one route. The library route may legitimately not implement a construct:
+/// that is a skip (counted), never a pass for the generic/CLI route.
+fn ev(route: Route, prog: &str, text: &[u8], st: &mut Stats, what: &str) -> Evald {
+    let o = jqeval::run(route, prog, text);
+    st.evals(1);
+    if route == Route::Library && (o.is_unsupported() || o.is_parse_error()) {
+        st.class(&format!("library-skipped:{}", what));
+        return Evald { out: Err(o.error.unwrap_or_default()), skipped: true };
+    }
+    match o.error {
+        None => Evald { out: Ok(o.outputs), skipped: false },
+        Some(e) => Evald { out: Err(e), skipped: false },
+    }
+}
+
+fn detail(route: Route, prog: &str, text: &[u8], got: &Result<Vec<J>, String>, expected: &str) -> Value {
+    let got_s = match got {
+        Ok(v) => json!(v.iter().map(json::to_compact).collect::<Vec<_>>()),
+        Err(e) => json!({ "error": e }),
+    };
+    json!({"route": route.name(), "program": prog, "input": String::from_utf8_lossy(text), "expected": expected, "actual": got_s})
+}
+
+/// `prog` must yield exactly one output equal (as a JSON value) to `expect`.
+fn expect_one(sig: &str, route: Route, prog: &str, text: &[u8], expect: &J, st: &mut Stats, what: &str) -> Result<(), Fail> {
+    let e = ev(route, prog, text, st, what);
+    if e.skipped {
+        return Ok(());
+    }
+    let ok = match &e.out {
+        Ok(v) if v.len() == 1 => {
+            let ok = val_eq(&v[0], expect);
+            if ok && !key_order_same(&v[0], expect) {
+                st.class(&format!("key-order-differs:{}", what));
+            }
+            ok
+        }
+        _ => false,
+    };
+    if !ok {
+        return Err(Fail::new(fail_sig(sig, route, prog, &e.out), detail(route, prog, text, &e.out, &json::to_compact(expect))));
+    }
+    Ok(())
+}
+
+fn fail_sig(sig: &str, route: Route, prog: &str, out: &Result<Vec<J>, String>) -> String {
+    let shape = match out {
+        Err(e) if is_known_parser_panic(prog, e) => return KNOWN_PARSER_PANIC.to_string(),
+        Err(e) if e.starts_with("panic: ") => "panic",
+        Err(_) => "error",
+        Ok(v) if v.len() != 1 => "output-count",
+        _ => "value",
+    };
+    format!("C25/{}/{}/{}", sig, route.name(), shape)
+}
+
+/// How generated program text is spelled: tight (`[1,"é"]`, `.a="é"`) or with a space
+/// after every `,` `;` `:` `=`. The tight form with raw non-ASCII text is the shape of the
+/// parser's char-boundary panic fixed in /repo 0b4d05d (replays/C25), so it stays frequent.
+/// BMP characters are written raw or as `\\uXXXX`; characters above the BMP always raw
+/// (the program parser rejects surrogate-pair escapes, a grammar gap outside C25).
+#[derive(Clone, Copy)]
+struct Sp {
+    tight: bool,
+    escape_bmp: bool,
+}
+
+impl Sp {
+    fn draw(u: &mut Src) -> Sp {
+        Sp { tight: u.ratio(1, 2), escape_bmp: u.ratio(1, 4) }
+    }
+    fn sep(&self) -> &'static str {
+        if self.tight {
+            ""
+        } else {
+            " "
+        }
+    }
+    fn s(&self, k: &str) -> String {
+        if !self.escape_bmp {
+            return jq_string(k);
+        }
+        // \uXXXX for BMP non-ASCII, raw above the BMP
+        let mut o = String::from("\"");
+        for c in k.chars() {
+            if (c as u32) >= 0x10000 {
+                o.push(c);
+            } else {
+                let one = jq_string_ascii(c.encode_utf8(&mut [0u8; 4]));
+                o.push_str(&one[1..one.len() - 1]);
+            }
+        }
+        o.push('"');
+        o
+    }
+    /// a JSON value as a jq literal
+    fn val(&self, j: &J) -> String {
+        let sep = self.sep();
+        match j {
+            J::Null => "null".into(),
+            J::Bool(b) => b.to_string(),
+            J::Num(n) => n.text.clone(),
+            J::Str(s) => self.s(s),
+            J::Arr(a) => format!("[{}]", a.iter().map(|x| self.val(x)).collect::<Vec<_>>().join(&format!(",{}", sep))),
+            J::Obj(f) => format!("{{{}}}", f.iter().map(|(k, x)| format!("{}:{}{}", self.s(k), sep, self.val(x))).collect::<Vec<_>>().join(&format!(",{}", sep))),
+        }
+    }
+    fn path(&self, p: &[J]) -> String {
+        let segs: Vec<String> = p
+            .iter()
+            .map(|s| match s {
+                J::Str(k) => self.s(k),
+                J::Num(n) => n.text.clone(),
+                _ => unreachable!(),
+            })
+            .collect();
+        format!("[{}]", segs.join(&format!(",{}", self.sep())))
+    }
+}
+
+const RAW: Sp = Sp { tight: true, escape_bmp: false };
+
+/// canonical (raw) rendering of a path, for reports and set comparison
+fn path_literal(p: &[J]) -> String {
+    RAW.path(p)
+}
+
+const KNOWN_PARSER_PANIC: &str = "C25/jq-parser-panic/peek_str-char-boundary";
+
+/// The finding fixed in /repo 0b4d05d: `Parser::peek_str` sliced the program text at a byte
+/// offset inside a multi-byte character (only reachable with raw non-ASCII program text).
+/// The signature stays distinct so that a regression is reported under its own name.
+fn is_known_parser_panic(prog: &str, err: &str) -> bool {
+    !prog.is_ascii() && err.contains("is not a char boundary") && err.contains("src/jq/parser.rs") && (err.starts_with("panic: parse:") || err.contains("panicked at"))
+}
+
+fn is_ident(k: &str) -> bool {
+    let mut cs = k.chars();
+    match cs.next() {
+        Some(c) if c.is_ascii_alphabetic() || c == '_' => {}
+        _ => return false,
+    }
+    cs.all(|c| c.is_ascii_alphanumeric() || c == '_') && !json::JQ_KEYWORDS.contains(&k)
+}
+
+/// a jq path expression for `p`: `.a`, `.["k"]`, `."k"`, `[3]` chained
+fn path_expr(p: &[J], u: &mut Src, sp: Sp) -> String {
+    let mut s = String::new();
+    for (i, seg) in p.iter().enumerate() {
+        match seg {
+            J::Str(k) => match u.below(3) {
+                0 if is_ident(k) => s.push_str(&format!(".{}", k)),
+                1 => s.push_str(&format!(".{}", sp.s(k))),
+                _ => s.push_str(&format!("{}[{}]", if i == 0 { "." } else { "" }, sp.s(k))),
+            },
+            J::Num(n) => s.push_str(&format!("{}[{}]", if i == 0 { "." } else { "" }, n.text)),
+            _ => unreachable!(),
+        }
+    }
+    if s.is_empty() {
+        s.push('.');
+    }
+    s
+}
+
+// ---------------------------------------------------------------- sub-check: round-trip identities
+
+fn check_identities(d: &Doc, st: &mut Stats) -> Result<(), Fail> {
+    for route in ROUTES {
+        expect_one("identity/tojson-fromjson", route, "tojson | fromjson", &d.text, &d.j, st, "tojson")?;
+        expect_one("identity/fromstream-tostream", route, "fromstream(tostream)", &d.text, &d.j, st, "tostream")?;
+        if matches!(d.j, J::Obj(_)) {
+            expect_one("identity/to_entries-from_entries", route, "to_entries | from_entries", &d.text, &d.j, st, "to_entries")?;
+            st.class("object-root-entries");
+        }
+        // a second spelling that exercises the same builtins below the root
+        if d.j.is_container() {
+            expect_one("identity/map-tojson-fromjson", route, "[.[] | tojson | fromjson]", &d.text, &values_of(&d.j), st, "tojson-each")?;
+        }
+    }
+    Ok(())
+}
+
+fn values_of(j: &J) -> J {
+    match j {
+        J::Arr(a) => J::Arr(a.clone()),
+        J::Obj(f) => J::Arr(f.iter().map(|x| x.1.clone()).collect()),
+        x => x.clone(),
+    }
+}
+
+fn check_string(s: &str, u: &mut Src, st: &mut Stats) -> Result<(), Fail> {
+    // the string as a JSON document, with a random escape form per character
+    let mut r = json::Rendered::default();
+    let esc = *u.pick(&[json::Esc::Random, json::Esc::Minimal, json::Esc::AsciiOnly]);
+    json::render_string(&mut r, u, s, esc);
+    let text = r.text;
+    let me = J::Str(s.to_string());
+    for route in ROUTES {
+        expect_one("string/base64-base64d", route, "@base64 | @base64d", &text, &me, st, "@base64d")?;
+        expect_one("string/uri-urid", route, "@uri | @urid", &text, &me, st, "@urid")?;
+        // the encoders alone, against harness-side decoders
+        for (prog, which) in [("@base64", "base64"), ("@uri", "uri")] {
+            let e = ev(route, prog, &text, st, which);
+            if e.skipped {
+                continue;
+            }
+            let dec = match &e.out {
+                Ok(v) if v.len() == 1 => match &v[0] {
+                    J::Str(enc) => {
+                        if which == "base64" {
+                            b64_decode_strict(enc)
+                        } else {
+                            pct_decode_strict(enc)
+                        }
+                    }
+                    _ => Err("output is not a string".to_string()),
+                },
+                Ok(v) => Err(format!("{} outputs", v.len())),
+                Err(e) => Err(e.clone()),
+            };
+            match dec {
+                Ok(bytes) if bytes == s.as_bytes() => {}
+                other => {
+                    let mut dt = detail(route, prog, &text, &e.out, &format!("an encoding that decodes to {:?}", s));
+                    dt["harness_decoder"] = json!(format!("{:?}", other.map(|b| show_bytes(&b))));
+                    return Err(Fail::new(format!("C25/string/{}-encoder/{}", which, route.name()), dt));
+                }
+            }
+        }
+    }
+    Ok(())
+}
+
+// ---------------------------------------------------------------- sub-check: paths
+
+fn path_key(p: &[J]) -> String {
+    path_literal(p)
+}
+
+fn check_paths(d: &Doc, u: &mut Src, st: &mut Stats) -> Result<(), Fail> {
+    let sp = Sp::draw(u);
+    st.class_if(sp.tight, "tight-program-text");
+    let model = all_paths(&d.j);
+    let mut model_keys: Vec<String> = model.iter().map(|p| path_key(p)).collect();
+    model_keys.sort();
+    for route in ROUTES {
+        // [paths] is exactly the model's path set
+        let e = ev(route, "[paths]", &d.text, st, "paths");
+        if !e.skipped {
+            let got: Option<Vec<String>> = match &e.out {
+                Ok(v) if v.len() == 1 => match &v[0] {
+                    J::Arr(ps) => ps
+                        .iter()
+                        .map(|p| match p {
+                            J::Arr(segs) if segs.iter().all(|s| matches!(s, J::Str(_)) || matches!(s, J::Num(n) if n.int.map_or(false, |i| i >= 0))) => {
+                                Some(path_key(&segs.iter().map(|s| if let J::Num(n) = s { J::int(n.int.unwrap()) } else { s.clone() }).collect::<Vec<_>>()))
+                            }
+                            _ => None,
+                        })
+                        .collect(),
+                    _ => None,
+                },
+                _ => None,
+            };
+            let ok = match got {
+                Some(mut g) => {
+                    let in_order = g == model.iter().map(|p| path_key(p)).collect::<Vec<_>>();
+                    st.class_if(!in_order && !g.is_empty(), "paths-not-in-document-order");
+                    g.sort();
+                    g == model_keys
+                }
+                None => false,
+            };
+            if !ok {
+                return Err(Fail::new(format!("C25/paths/path-set/{}", route.name()), detail(route, "[paths]", &d.text, &e.out, &format!("{} paths: {:?}", model.len(), model_keys.iter().take(12).collect::<Vec<_>>()))));
+            }
+        }
+    }
+    if model.is_empty() {
+        return Ok(());
+    }
+    // every path (all of them up to 48, else a spread sample incl. first/last/deepest)
+    let idxs: Vec<usize> = if model.len() <= 48 {
+        (0..model.len()).collect()
+    } else {
+        let deepest = (0..model.len()).max_by_key(|&i| model[i].len()).unwrap();
+        let mut v = vec![0, model.len() - 1, deepest];
+        for _ in 0..40 {
+            v.push(u.below(model.len()));
+        }
+        v
+    };
+    st.class_if(model.iter().any(|p| p.len() >= 3), "path-len>=3");
+    for &i in &idxs {
+        let p = &model[i];
+        let lit = sp.path(p);
+        let want = jsonval::getpath(&d.j, p).expect("model path resolves in the model");
+        let g = format!("getpath({})", lit);
+        let s = format!("setpath({};{}getpath({}))", lit, sp.sep(), lit);
+        for route in ROUTES {
+            expect_one("paths/getpath", route, &g, &d.text, want, st, "getpath")?;
+            expect_one("paths/setpath-getpath", route, &s, &d.text, &d.j, st, "setpath")?;
+        }
+    }
+    // the same through the language's own iteration (`paths as $p`)
+    let want_all = J::Arr(model.iter().map(|p| jsonval::getpath(&d.j, p).unwrap().clone()).collect());
+    let n = model.len();
+    for route in ROUTES {
+        let e = ev(route, "[paths as $p | getpath($p)]", &d.text, st, "paths-as-getpath");
+        if !e.skipped {
+            // order of `paths` is not asserted: compare as multisets under the total order
+            let ok = match &e.out {
+                Ok(v) if v.len() == 1 => match (&v[0], &want_all) {
+                    (J::Arr(a), J::Arr(b)) => same_multiset(a, b),
+                    _ => false,
+                },
+                _ => false,
+            };
+            if !ok {
+                return Err(Fail::new(format!("C25/paths/getpath-of-paths/{}", route.name()), detail(route, "[paths as $p | getpath($p)]", &d.text, &e.out, &json::to_compact(&want_all))));
+            }
+        }
+        let prog = "[paths as $p | setpath($p; getpath($p))]";
+        let e = ev(route, prog, &d.text, st, "paths-as-setpath");
+        if !e.skipped {
+            let ok = match &e.out {
+                Ok(v) if v.len() == 1 => matches!(&v[0], J::Arr(a) if a.len() == n && a.iter().all(|x| val_eq(x, &d.j))),
+                _ => false,
+            };
+            if !ok {
+                return Err(Fail::new(format!("C25/paths/setpath-of-paths/{}", route.name()), detail(route, prog, &d.text, &e.out, &format!("{} copies of the input", n))));
+            }
+        }
+    }
+    Ok(())
+}
+
+fn same_multiset(a: &[J], b: &[J]) -> bool {
+    if a.len() != b.len() {
+        return false;
+    }
+    let mut x: Vec<&J> = a.iter().collect();
+    let mut y: Vec<&J> = b.iter().collect();
+    x.sort_by(|p, q| jq_cmp(p, q));
+    y.sort_by(|p, q| jq_cmp(p, q));
+    x.iter().zip(y.iter()).all(|(p, q)| val_eq(p, q))
+}
+
+// ---------------------------------------------------------------- sub-check: sort / unique
+
+/// an equal value spelled differently (numbers respelled, object keys rotated)
+fn respell(j: &J, u: &mut Src) -> J {
+    match j {
+        J::Num(n) => {
+            if let Some(i) = n.int {
+                if i.unsigned_abs() < (1u64 << 53) {
+                    return match u.below(4) {
+                        0 => J::num(&format!("{}.0", i)),
+                        1 => J::num(&format!("{}e0", i)),
+                        2 => J::num(&format!("{}.000", i)),
+                        _ => j.clone(),
+                    };
+                }
+            }
+            j.clone()
+        }
+        J::Arr(a) => J::Arr(a.iter().map(|x| respell(x, u)).collect()),
+        J::Obj(f) => {
+            let mut g: Vec<(String, J)> = f.iter().map(|(k, x)| (k.clone(), respell(x, u))).collect();
+            if g.len() > 1 {
+                let r = u.below(g.len());
+                g.rotate_left(r);
+            }
+            J::Obj(g)
+        }
+        x => x.clone(),
+    }
+}
+
+/// a nearby but different value (so the order has something to decide)
+fn neighbour(j: &J, u: &mut Src) -> J {
+    match j {
+        J::Null => J::Bool(false),
+        J::Bool(b) => J::Bool(!b),
+        J::Num(n) => {
+            let v = n.value;
+            let w = match u.below(4) {
+                0 => f64::from_bits(v.to_bits().wrapping_add(1)),
+                1 => -v,
+                2 => v + 1.0,
+                _ => v / 2.0,
+            };
+            if w.is_finite() {
+                J::num(&format!("{:?}", w))
+            } else {
+                J::int(0)
+            }
+        }
+        J::Str(s) => {
+            let mut t = s.clone();
+            match u.below(3) {
+                0 => t.push(json::gen_char(u, StrPalette::Full)),
+                1 => {
+                    t.pop();
+                }
+                _ => t = format!("{}{}", json::gen_char(u, StrPalette::Full), t),
+            }
+            J::Str(t)
+        }
+        J::Arr(a) => {
+            let mut b = a.clone();
+            match u.below(3) {
+                0 => b.push(J::Null),
+                1 => {
+                    b.pop();
+                }
+                _ => {
+                    if let Some(x) = b.last_mut() {
+                        *x = neighbour(x, u);
+                    } else {
+                        b.push(J::Arr(vec![]));
+                    }
+                }
+            }
+            J::Arr(b)
+        }
+        J::Obj(f) => {
+            let mut g = f.clone();
+            match u.below(3) {
+                0 => {
+                    let mut k = "z".to_string();
+                    while g.iter().any(|e| e.0 == k) {
+                        k.push('z');
+                    }
+                    g.push((k, J::int(0)));
+                }
+                1 => {
+                    g.pop();
+                }
+                _ => {
+                    if let Some(x) = g.last_mut() {
+                        x.1 = neighbour(&x.1, u);
+                    } else {
+                        g.push(("a".into(), J::Null));
+                    }
+                }
+            }
+            J::Obj(g)
+        }
+    }
+}
+
+fn gen_sort_array(u: &mut Src) -> Vec<J> {
+    let nbase = u.range(1, 6);
+    let mut o = gen_opts(u);
+    o.max_nodes = o.max_nodes.min(12);
+    o.max_depth = o.max_depth.min(3);
+    let mut base: Vec<J> = (0..nbase)
+        .map(|_| if u.ratio(1, 2) { json::gen_scalar(u, &o) } else { json::gen_value(u, &o) })
+        .collect();
+    if u.ratio(1, 3) {
+        // one of each kind so that the kind order is decided
+        base.extend([J::Null, J::Bool(true), J::Bool(false), J::int(0), J::Str(String::new()), J::Arr(vec![]), J::Obj(vec![])]);
+    }
+    let n = u.range(0, 14);
+    let mut arr = vec![];
+    for _ in 0..n {
+        let b = base[u.below(base.len())].clone();
+        arr.push(match u.below(5) {
+            0 => b,
+            1 => respell(&b, u),
+            2 | 3 => neighbour(&b, u),
+            _ => {
+                let nb = neighbour(&b, u);
+                base.push(nb.clone());
+                nb
+            }
+        });
+    }
+    arr
+}
+
+fn check_sort_unique(arr: &[J], text: &[u8], st: &mut Stats) -> Result<(), Fail> {
+    let input = J::Arr(arr.to_vec());
+    let ambiguous = has_ambiguous_numbers(&input);
+    st.class_if(ambiguous, "ambiguous-number-pair(relaxed-order)");
+    let mut sorted: Vec<&J> = arr.iter().collect();
+    sorted.sort_by(|a, b| jq_cmp(a, b));
+    let mut classes = 0usize;
+    for (i, x) in sorted.iter().enumerate() {
+        if i == 0 || jq_cmp(sorted[i - 1], x) != Ordering::Equal {
+            classes += 1;
+        }
+    }
+    st.class_if(classes < arr.len(), "has-equal-elements");
+    for route in ROUTES {
+        // sort: non-decreasing under the total order + same multiset
+        let e = ev(route, "sort", text, st, "sort");
+        if !e.skipped {
+            let verdict: Result<(), &str> = match &e.out {
+                Ok(v) if v.len() == 1 => match &v[0] {
+                    J::Arr(o) => {
+                        if o.len() != arr.len() {
+                            Err("length")
+                        } else if o.windows(2).any(|w| jq_cmp(&w[0], &w[1]) == Ordering::Greater) {
+                            Err("not-ordered")
+                        } else if !same_multiset(o, arr) {
+                            Err("not-a-permutation")
+                        } else {
+                            Ok(())
+                        }
+                    }
+                    _ => Err("not-an-array"),
+                },
+                Ok(_) => Err("output-count"),
+                Err(_) => Err("error"),
+            };
+            if let Err(why) = verdict {
+                let exp = json::to_compact(&J::Arr(sorted.iter().map(|x| (*x).clone()).collect()));
+                return Err(Fail::new(format!("C25/order/sort/{}/{}", route.name(), why), detail(route, "sort", text, &e.out, &exp)));
+            }
+        }
+        // unique: increasing, one representative per class of equal values
+        let e = ev(route, "unique", text, st, "unique");
+        if !e.skipped {
+            let verdict: Result<(), &str> = match &e.out {
+                Ok(v) if v.len() == 1 => match &v[0] {
+                    J::Arr(o) => {
+                        let bad_order = o.windows(2).any(|w| match jq_cmp(&w[0], &w[1]) {
+                            Ordering::Less => false,
+                            Ordering::Greater => true,
+                            // equal as doubles: only tolerable when the array holds literals
+                            // that differ in exact value but not as doubles
+                            Ordering::Equal => !ambiguous || exact_eq(&w[0], &w[1]),
+                        });
+                        if bad_order {
+                            Err("not-strictly-increasing")
+                        } else if (!ambiguous && o.len() != classes) || o.len() < classes {
+                            Err("length")
+                        } else if o.iter().any(|x| !arr.iter().any(|y| val_eq(x, y))) {
+                            Err("element-not-from-input")
+                        } else if arr.iter().any(|y| !o.iter().any(|x| val_eq(x, y))) {
+                            Err("input-element-lost")
+                        } else {
+                            Ok(())
+                        }
+                    }
+                    _ => Err("not-an-array"),
+                },
+                Ok(_) => Err("output-count"),
+                Err(_) => Err("error"),
+            };
+            if let Err(why) = verdict {
+                let mut uq: Vec<J> = vec![];
+                for x in &sorted {
+                    if uq.last().map_or(true, |l| jq_cmp(l, x) != Ordering::Equal) {
+                        uq.push((*x).clone());
+                    }
+                }
+                return Err(Fail::new(format!("C25/order/unique/{}/{}", route.name(), why), detail(route, "unique", text, &e.out, &json::to_compact(&J::Arr(uq)))));
+            }
+        }
+    }
+    Ok(())
+}
+
+/// equality with numbers compared by exact decimal value
+fn exact_eq(a: &J, b: &J) -> bool {
+    match (a, b) {
+        (J::Num(x), J::Num(y)) => canon_dec(&x.text) == canon_dec(&y.text),
+        (J::Arr(x), J::Arr(y)) => x.len() == y.len() && x.iter().zip(y).all(|(p, q)| exact_eq(p, q)),
+        (J::Obj(x), J::Obj(y)) => x.len() == y.len() && x.iter().all(|(k, v)| y.iter().any(|(k2, v2)| k == k2 && exact_eq(v, v2))),
+        _ => val_eq(a, b),
+    }
+}
+
+// ---------------------------------------------------------------- sub-check: assignment
+
+struct Assign {
+    path: Vec<J>,
+    fresh_key: bool,
+    v: J,
+}
+
+fn gen_assign(d: &Doc, u: &mut Src) -> Option<Assign> {
+    let model = all_paths(&d.j);
+    let vo = GenOpts { max_depth: 2, max_nodes: 6, dup_keys: false, strings: StrPalette::Full, keys: KeyPalette::AsStrings, numbers: *u.pick(&[1, 1, 2, 0]), max_str_len: 6 };
+    let v = if u.ratio(1, 3) { json::gen_value(u, &vo) } else { json::gen_scalar(u, &vo) };
+    // a fresh key on an existing object (root or nested)
+    if u.ratio(1, 6) {
+        let mut objs: Vec<Vec<J>> = model.iter().filter(|p| matches!(jsonval::getpath(&d.j, p), Some(J::Obj(_)))).cloned().collect();
+        if matches!(d.j, J::Obj(_)) {
+            objs.push(vec![]);
+        }
+        if !objs.is_empty() {
+            let mut p = objs[u.below(objs.len())].clone();
+            let J::Obj(f) = jsonval::getpath(&d.j, &p).unwrap() else { unreachable!() };
+            let mut k = json::gen_key(u, &vo);
+            while f.iter().any(|e| e.0 == k) {
+                k.push('+');
+            }
+            p.push(J::Str(k));
+            return Some(Assign { path: p, fresh_key: true, v });
+        }
+    }
+    if model.is_empty() {
+        return None;
+    }
+    Some(Assign { path: model[u.below(model.len())].clone(), fresh_key: false, v })
+}
+
+fn check_assign(d: &Doc, a: &Assign, u: &mut Src, st: &mut Stats) -> Result<(), Fail> {
+    let expect = replace_at(&d.j, &a.path, &a.v);
+    let sp = Sp::draw(u);
+    st.class_if(sp.tight, "tight-program-text");
+    let vlit = sp.val(&a.v);
+    let lit = sp.path(&a.path);
+    let pe = path_expr(&a.path, u, sp);
+    let progs = [
+        ("assign/setpath", format!("setpath({};{}{})", lit, sp.sep(), vlit)),
+        ("assign/path-eq", format!("({}){}={}{}", pe, sp.sep(), sp.sep(), vlit)),
+        ("assign/path-eq-unparenthesised", format!("{}{}={}{}", pe, sp.sep(), sp.sep(), vlit)),
+    ];
+    for route in ROUTES {
+        for (sig, prog) in &progs {
+            expect_one(sig, route, prog, &d.text, &expect, st, sig)?;
+        }
+        // and the written value reads back
+        let rb = format!("setpath({};{}{}) | getpath({})", lit, sp.sep(), vlit, lit);
+        expect_one("assign/readback", route, &rb, &d.text, &a.v, st, "assign-readback")?;
+    }
+    Ok(())
+}
+
+// ---------------------------------------------------------------- CLI sample
+
+static TIMEOUTS: std::sync::atomic::AtomicU64 = std::sync::atomic::AtomicU64::new(0);
+static FIRST_TIMEOUT: std::sync::Mutex<Option<String>> = std::sync::Mutex::new(None);
+
+fn cli_lines(args: &[&str], file: &std::path::Path) -> Result<Vec<J>, String> {
+    let f = file.to_string_lossy().to_string();
+    let mut a: Vec<&str> = vec!["jq", "-c"];
+    a.extend_from_slice(args);
+    a.push(&f);
+    let mut o = cli::run(&a, None);
+    if o.timed_out {
+        // a loaded machine can starve one spawn past the watchdog: try once more
+        o = cli::run(&a, None);
+    }
+    if o.timed_out {
+        TIMEOUTS.fetch_add(1, std::sync::atomic::Ordering::Relaxed);
+        let mut g = FIRST_TIMEOUT.lock().unwrap();
+        if g.is_none() {
+            *g = Some(format!("args {:?} input {:?}", args, String::from_utf8_lossy(&std::fs::read(file).unwrap_or_default()).chars().take(600).collect::<String>()));
+        }
+        return Err("INFRA: timed out".into());
+    }
+    if !o.ok() {
+        return Err(format!("exit {:?} signal {:?}: {}", o.code, o.signal, o.stderr_str().chars().take(400).collect::<String>()));
+    }
+    jsonval::parse_stream(&o.stdout).map_err(|e| format!("unreadable stdout: {} at {}", e.msg, e.offset))
+}
+
+/// Several documents per spawn for the path-free identities; two single spawns for a
+/// path-specific program on the first document.
+fn check_cli(u: &mut Src, st: &mut Stats) -> Result<(), Fail> {
+    let n = u.range(2, 8);
+    let docs: Vec<Doc> = (0..n).map(|_| gen_doc(u)).collect();
+    for d in &docs {
+        classify(d, st, 0xC11);
+    }
+    st.describe(|| json!({"documents": docs.iter().map(|d| String::from_utf8_lossy(&d.text).to_string()).collect::<Vec<_>>()}));
+    // one document per line needs single-line renderings: re-render compactly when the
+    // random rendering contains a newline
+    let mut file = Vec::new();
+    for d in &docs {
+        if d.text.contains(&b'\n') || d.text.contains(&b'\r') {
+            file.extend_from_slice(json::to_compact(&d.j).as_bytes());
+        } else {
+            file.extend_from_slice(&d.text);
+        }
+        file.push(b'\n');
+    }
+    let path = cli::write_tmp("c25", &file);
+    let shown = || String::from_utf8_lossy(&file).to_string();
+    let run_same = |prog: &str, sig: &str, expect: &dyn Fn(&Doc) -> Option<J>, st: &mut Stats| -> Result<(), Fail> {
+        let wanted: Vec<Option<J>> = docs.iter().map(expect).collect();
+        // documents the program is not defined on are left out of this spawn's file
+        let (p, sel): (std::path::PathBuf, Vec<usize>) = if wanted.iter().all(|w| w.is_some()) {
+            (path.clone(), (0..docs.len()).collect())
+        } else {
+            let sel: Vec<usize> = (0..docs.len()).filter(|&i| wanted[i].is_some()).collect();
+            if sel.is_empty() {
+                return Ok(());
+            }
+            let mut f2 = Vec::new();
+            for &i in &sel {
+                f2.extend_from_slice(json::to_compact(&docs[i].j).as_bytes());
+                f2.push(b'\n');
+            }
+            (cli::write_tmp("c25s", &f2), sel)
+        };
+        st.evals(sel.len() as u64);
+        let got = cli_lines(&[prog], &p);
+        if p != path {
+            let _ = std::fs::remove_file(&p);
+        }
+        let got = match got {
+            Ok(g) => g,
+            Err(e) if e.starts_with("INFRA") => return Ok(()),
+            Err(e) => return Err(Fail::new(format!("C25/cli/{}/error", sig), json!({"program": prog, "file": shown(), "error": e}))),
+        };
+        if got.len() != sel.len() {
+            return Err(Fail::new(format!("C25/cli/{}/output-count", sig), json!({"program": prog, "file": shown(), "outputs": got.len(), "documents": sel.len()})));
+        }
+        for (k, &i) in sel.iter().enumerate() {
+            if !val_eq(&got[k], wanted[i].as_ref().unwrap()) {
+                return Err(Fail::new(format!("C25/cli/{}/value", sig), json!({"program": prog, "document": String::from_utf8_lossy(&docs[i].text), "expected": json::to_compact(wanted[i].as_ref().unwrap()), "actual": json::to_compact(&got[k])})));
+            }
+        }
+        Ok(())
+    };
+    let r = (|| {
+        run_same("tojson | fromjson", "tojson-fromjson", &|d| Some(d.j.clone()), st)?;
+        run_same("fromstream(tostream)", "fromstream-tostream", &|d| Some(d.j.clone()), st)?;
+        run_same("to_entries | from_entries", "to_entries-from_entries", &|d| if matches!(d.j, J::Obj(_)) { Some(d.j.clone()) } else { None }, st)?;
+        run_same("[paths as $p | setpath($p; getpath($p))] | unique", "setpath-of-paths", &|d| if all_paths(&d.j).is_empty() { None } else { Some(J::Arr(vec![d.j.clone()])) }, st)?;
+        run_same("[paths as $p | getpath($p)] | sort", "getpath-of-paths", &|d| {
+            let mut v: Vec<J> = all_paths(&d.j).iter().map(|p| jsonval::getpath(&d.j, p).unwrap().clone()).collect();
+            if has_ambiguous_numbers(&J::Arr(v.clone())) {
+                return None;
+            }
+            v.sort_by(|a, b| jq_cmp(a, b));
+            Some(J::Arr(v))
+        }, st)?;
+        run_same("[.. | strings | (@base64 | @base64d), (@uri | @urid)] | sort", "string-codecs", &|d| {
+            let mut v = vec![];
+            fn vals(j: &J, out: &mut Vec<J>) {
+                match j {
+                    J::Str(s) => {
+                        out.push(J::Str(s.clone()));
+                        out.push(J::Str(s.clone()));
+                    }
+                    J::Arr(a) => a.iter().for_each(|x| vals(x, out)),
+                    J::Obj(f) => f.iter().for_each(|(_, x)| vals(x, out)),
+                    _ => {}
+                }
+            }
+            vals(&d.j, &mut v);
+            v.sort_by(|a, b| jq_cmp(a, b));
+            Some(J::Arr(v))
+        }, st)?;
+        // path-specific programs: one spawn each, on the first document that has paths
+        if let Some(d) = docs.iter().find(|d| !all_paths(&d.j).is_empty()) {
+            let model = all_paths(&d.j);
+            let p = &model[u.below(model.len())];
+            let sp = Sp::draw(u);
+            let lit = sp.path(p);
+            let one = cli::write_tmp("c25p", &d.text);
+            let a = gen_assign(d, u);
+            let mut progs: Vec<(String, String, J)> = vec![
+                ("getpath".into(), format!("getpath({})", lit), jsonval::getpath(&d.j, p).unwrap().clone()),
+                ("setpath-getpath".into(), format!("setpath({}; getpath({}))", lit, lit), d.j.clone()),
+            ];
+            if let Some(a) = &a {
+                let e = replace_at(&d.j, &a.path, &a.v);
+                progs.push(("setpath".into(), format!("setpath({}; {})", sp.path(&a.path), sp.val(&a.v)), e.clone()));
+                progs.push(("path-eq".into(), format!("({}) = {}", path_expr(&a.path, u, sp), sp.val(&a.v)), e));
+            }
+            let mut res = Ok(());
+            for (sig, prog, want) in progs {
+                st.evals(1);
+                match cli_lines(&[&prog], &one) {
+                    Err(e) if e.starts_with("INFRA") => {}
+                    Err(e) => {
+                        let sg = if is_known_parser_panic(&prog, &e) { KNOWN_PARSER_PANIC.to_string() } else { format!("C25/cli/{}/error", sig) };
+                        res = Err(Fail::new(sg, json!({"program": prog, "document": String::from_utf8_lossy(&d.text), "error": e})));
+                        break;
+                    }
+                    Ok(g) => {
+                        if g.len() != 1 || !val_eq(&g[0], &want) {
+                            res = Err(Fail::new(format!("C25/cli/{}/value", sig), json!({"program": prog, "document": String::from_utf8_lossy(&d.text), "expected": json::to_compact(&want), "actual": g.iter().map(json::to_compact).collect::<Vec<_>>()})));
+                            break;
+                        }
+                    }
+                }
+            }
+            let _ = std::fs::remove_file(&one);
+            res?;
+        }
+        Ok(())
+    })();
+    let _ = std::fs::remove_file(&path);
+    r
+}
+
+// ---------------------------------------------------------------- replays
+
+fn replay_input(v: &Value) -> Option<Fail> {
+    let sub = v["subcheck"].as_str().unwrap_or("");
+    let inp = &v["input"];
+    let text = inp["text"].as_str().unwrap_or("").as_bytes().to_vec();
+    let j = match jsonval::parse_one(&text) {
+        Ok(j) => j,
+        Err(e) => return Some(Fail::new("C25/replay/bad-input", json!({"error": e.msg}))),
+    };
+    let d = Doc { j, text };
+    let mut st = Stats::default();
+    let mut u = Src::new(&[]);
+    let r = match sub {
+        "identities" => check_identities(&d, &mut st).and_then(|_| {
+            let mut ss = vec![];
+            strings_of(&d.j, &mut ss);
+            ss.iter().try_for_each(|s| check_string(s, &mut u, &mut st))
+        }),
+        "paths" => check_paths(&d, &mut u, &mut st),
+        "sort-unique" => match &d.j {
+            J::Arr(a) => check_sort_unique(a, &d.text, &mut st),
+            _ => Err(Fail::new("C25/replay/bad-input", json!({"error": "sort-unique replay needs an array"}))),
+        },
+        "assign" => {
+            let path: Vec<J> = match jsonval::parse_one(inp["path"].to_string().as_bytes()) {
+                Ok(J::Arr(p)) => p,
+                _ => return Some(Fail::new("C25/replay/bad-input", json!({"error": "path"}))),
+            };
+            let v = match jsonval::parse_one(inp["value"].as_str().unwrap_or("null").as_bytes()) {
+                Ok(v) => v,
+                Err(_) => return Some(Fail::new("C25/replay/bad-input", json!({"error": "value"}))),
+            };
+            let fresh = jsonval::getpath(&d.j, &path).is_none();
+            check_assign(&d, &Assign { path, fresh_key: fresh, v }, &mut u, &mut st)
+        }
+        // one explicit program: {text, program, expected}
+        "program" => {
+            let prog = inp["program"].as_str().unwrap_or(".");
+            match jsonval::parse_one(inp["expected"].as_str().unwrap_or("null").as_bytes()) {
+                Ok(want) => ROUTES.iter().try_for_each(|&route| expect_one("program", route, prog, &d.text, &want, &mut st, "replay-program")),
+                Err(_) => Err(Fail::new("C25/replay/bad-input", json!({"error": "expected"}))),
+            }
+        }
+        _ => Err(Fail::new("C25/replay/unknown-subcheck", json!({"subcheck": sub}))),
+    };
+    r.err()
+}
+
+// ---------------------------------------------------------------- run
+
+/// class guards only make sense for a generated search (not under `vh replay`)
+fn req(cx: &mut Ctx, sub: &str, class: &str, min: u64) {
+    if cx.replay_entropy.is_none() {
+        cx.require_class(sub, class, min);
+    }
+}
 
 pub fn run(cx: &mut Ctx) {
-    cx.infra("check not built");
+    cx.assume("oracles are harness code: the G-json model (value known by construction), model path walk/replace, jsonval::jq_cmp (jq's documented total order, numbers as doubles), a strict RFC 4648 base64 decoder and a percent-decoder");
+    cx.assume("results are read back through jq mode's own printer (OwnedValue::to_json / CLI -c) with O-jsonval; numbers compare as doubles, objects as unordered maps (key order differences are counted, not failed)");
+    cx.assume("where two numbers of an array are equal as doubles but differ in exact decimal value, the relative order / dedup of the two is not asserted (jq 1.7.1 compares literals as decimals; succinctly documents i64-exact / f64 comparison in value.rs)");
+    cx.assume("the library evaluator is skipped (and counted) where it reports a construct as unsupported; the generic/CLI evaluator never is");
+    for (name, v) in cx.replays.clone() {
+        if v["kind"] == "input" {
+            let r = replay_input(&v);
+            cx.replay_outcome(&name, r);
+        }
+    }
+
+    cx.check(
+        "identities",
+        "value round trips (tojson|fromjson, fromstream(tostream), to_entries|from_entries on object roots, [.[]|tojson|fromjson]) on the whole value; @base64|@base64d, @uri|@urid and the two encoders against harness decoders on every string and key of the value (each as its own JSON document with random escape forms); both evaluators",
+        Budget { quick: 40_000, thorough: 1_000_000, max_len: 3000 },
+        |u, st| {
+            let d = gen_doc(u);
+            classify(&d, st, 1);
+            st.describe(|| doc_json(&d));
+            st.sample(d.j.kind(), || doc_json(&d));
+            check_identities(&d, st)?;
+            let mut ss = vec![];
+            strings_of(&d.j, &mut ss);
+            ss.sort();
+            ss.dedup();
+            st.class_if(!ss.is_empty(), "has-strings");
+            for s in ss.iter().take(24) {
+                check_string(s, u, st)?;
+            }
+            // plus one generated string of its own (long strings, every palette)
+            let s = json::gen_string(u, StrPalette::Full, 40);
+            st.class_if(s.len() % 3 == 1, "base64-two-pad");
+            st.class_if(s.len() % 3 == 2, "base64-one-pad");
+            check_string(&s, u, st)
+        },
+    );
+    for c in ["nontrivial", "root-object", "root-array", "object-root-entries", "non-ascii-string", "astral-string", "control-char-string", "number-beyond-2^53", "exponent-number", "extreme-number", "base64-one-pad", "base64-two-pad", "depth>=3"] {
+        req(cx, "identities", c, 20);
+    }
+
+    cx.check(
+        "paths",
+        "[paths] equals the model's path set; for every model path p (all when <=48, else a spread sample): getpath(p) = model lookup, setpath(p; getpath(p)) = input; plus the same through `paths as $p`; both evaluators",
+        Budget { quick: 16_000, thorough: 300_000, max_len: 3000 },
+        |u, st| {
+            let d = gen_doc(u);
+            classify(&d, st, 2);
+            st.describe(|| doc_json(&d));
+            st.sample(d.j.kind(), || doc_json(&d));
+            let np = all_paths(&d.j).len();
+            st.class_if(np >= 10, "paths>=10");
+            check_paths(&d, u, st)
+        },
+    );
+    for c in ["nontrivial", "paths>=10", "path-len>=3", "non-ascii-string", "depth>=3"] {
+        req(cx, "paths", c, 20);
+    }
+
+    cx.check(
+        "sort-unique",
+        "arrays built from a few base values, respelled equals (1 / 1.0 / 1e0, rotated object keys) and near neighbours (next double, negation, one more/less element or character); sort must be a non-decreasing permutation and unique one increasing representative per class under the harness's jq total order; both evaluators",
+        Budget { quick: 80_000, thorough: 3_000_000, max_len: 3000 },
+        |u, st| {
+            let arr = gen_sort_array(u);
+            let j = J::Arr(arr.clone());
+            let ro = json::render_opts(u);
+            let text = json::render(&j, u, ro).text;
+            let d = Doc { j, text };
+            classify(&d, st, 3);
+            st.describe(|| doc_json(&d));
+            let mut kinds = std::collections::BTreeSet::new();
+            arr.iter().for_each(|x| {
+                kinds.insert(x.kind());
+            });
+            st.class_if(kinds.len() >= 4, "element-kinds>=4");
+            st.class_if(arr.iter().filter(|x| matches!(x, J::Obj(_))).count() >= 2, "objects>=2");
+            st.class_if(arr.iter().filter(|x| matches!(x, J::Arr(_))).count() >= 2, "arrays>=2");
+            st.sample(if kinds.len() >= 4 { "mixed" } else { "plain" }, || doc_json(&d));
+            check_sort_unique(&arr, &d.text, st)
+        },
+    );
+    for c in ["has-equal-elements", "element-kinds>=4", "objects>=2", "arrays>=2", "non-ascii-string"] {
+        req(cx, "sort-unique", c, 20);
+    }
+
+    cx.check(
+        "assign",
+        "one model path p (or a fresh key on an existing object) and a generated value v: setpath(p; v), (path-expression) = v, path-expression = v all equal the model with exactly that node replaced, and getpath(p) of the result is v; path expressions mix .a / .\"k\" / .[\"k\"] / [n]; both evaluators",
+        Budget { quick: 60_000, thorough: 2_000_000, max_len: 3000 },
+        |u, st| {
+            let d = gen_doc(u);
+            let Some(a) = gen_assign(&d, u) else {
+                st.discard();
+                return Ok(());
+            };
+            classify(&d, st, hash_str(&path_literal(&a.path)) ^ hash_str(&json::to_compact(&a.v)));
+            st.class_if(a.fresh_key, "fresh-key");
+            st.class_if(a.path.len() >= 3, "path-len>=3");
+            st.class_if(a.v.is_container(), "container-value");
+            st.class_if(jsonval::getpath(&d.j, &a.path).map_or(false, |x| x.is_container()), "replaces-container");
+            st.describe(|| json!({"text": String::from_utf8_lossy(&d.text), "path": path_literal(&a.path), "value": json::to_compact(&a.v)}));
+            st.sample(if a.fresh_key { "fresh" } else { "existing" }, || json!({"text": String::from_utf8_lossy(&d.text), "path": path_literal(&a.path), "value": json::to_compact(&a.v)}));
+            check_assign(&d, &a, u, st)
+        },
+    );
+    for c in ["nontrivial", "fresh-key", "path-len>=3", "container-value", "replaces-container"] {
+        req(cx, "assign", c, 20);
+    }
+
+    if cli::cli_available() {
+        cx.check(
+            "cli-sample",
+            "2-8 generated documents per file (one per line), `succinctly jq -c <prog> file` for the path-free identities (tojson|fromjson, fromstream(tostream), to_entries|from_entries, setpath/getpath over `paths as $p`, string codecs over `.. | strings`), plus four single-document spawns for a drawn path (getpath, setpath-getpath, setpath(p;v), (path)=v)",
+            Budget { quick: 120, thorough: 5_000, max_len: 6000 },
+            |u, st| check_cli(u, st),
+        );
+        req(cx, "cli-sample", "nontrivial", 20);
+        let t = TIMEOUTS.load(std::sync::atomic::Ordering::Relaxed);
+        if t > 0 {
+            let first = FIRST_TIMEOUT.lock().unwrap().clone().unwrap_or_default();
+            cx.infra(format!("{} CLI spawns hit the 20 s watchdog (inconclusive); first: {}", t, first));
+        }
+    } else {
+        cx.infra(format!("CLI binary not found at {}", cli::cli_path()));
+    }
+    cli::cleanup();
 }
